@@ -217,7 +217,7 @@ def main():
     broken += corr.get('broken', [])
     # search (always runs: cheaply when nothing broke, at full volume when something did)
     try:
-        witnesses, searched = fam.search(pid, tier, seed, escalate=bool(broken) or bool(changed), hints=corr.get('failing_cases', []))
+        witnesses, searched = fam.search(pid, tier, seed, escalate=bool(broken) or bool(changed) or bool(corr.get('failing_cases')), hints=corr.get('failing_cases', []))
     except Exception:  # noqa
         witnesses, searched = [], 0
         broken.append('search crashed: ' + traceback.format_exc()[-1500:])
